@@ -153,6 +153,10 @@ def r12_3(ctx: Ctx):
     # a direction kept by an engine object must be the problem's own (R13.8): otherwise `better` means `worse` for one direction
     for o in c13.r13_8(ctx):
         # only the engines' own direction concerns elitism; a sprout filter's is C10 / C13's business
+        kept_by = ctx.prog.cls_opt((o.construct or "").split(".")[0]) if o.construct else None
+        vo = ctx.prog.cls_opt("VariationalOperator")
+        if kept_by is not None and ((vo is not None and ctx.prog.is_subclass(kept_by, vo)) or kept_by.name.endswith(("Selection", "Mutation", "Crossover"))):
+            continue  # a variation / mating-selection operator decides which offspring are MADE, not which individuals survive
         if any(k in (o.subject or "") + (o.construct or "") for k in ("single_pop_eas", "DE", "SHADE", "SEA", "de_deme", "shade_deme", "ea_deme", "Deme.")) and "sprout" not in (o.subject or ""):
             o.rule = "R12.3"
             obs.append(o)
